@@ -9,9 +9,13 @@ for.  Editing one of them in the code breaks this obligation; re-indenting `_RE_
 compared in canonical verbose form), editing a comment inside it, reformatting a call or renaming a local variable
 does not.
 
-Each `rxIos_<Class>_<accessor>` is the *scan list* of that accessor: every regex call (`re.*`, a compiled module
-constant, the `re_match*` helpers), literal `str` separator, `"lit" in …` test and comparison against a `str` literal
-or a list of `str` literals, distinct, in order of first appearance, as `(callee, text, flags or subscript)`.
+Each `rxIos_<Class>_<accessor>` is the scan set of that accessor, looked up from the concrete class (`IOSIntfLine`,
+`IOSRouteLine`) through its base classes of the file.  `rx…` are *scan sets* (`harness/rxscan.py`, `scan_closure`): for the named entry point and every helper of the same
+source file it reaches, every regex call (with flags; a compiled pattern's method is reported as the `re.` function
+with the pattern's text), literal `str` separator, `"lit" in …` test and comparison against a `str` literal or a list of `str` literals (with the constant subscript of the other side), as a sorted duplicate-free list of
+`(what, text, flags or detail)`.  So a regex call that is added to, or removed from, the modelled code breaks the
+obligation as well, while moving a test into a helper method, re-ordering tests, negating one (`!=` is reported as
+`==`, `not in` as `in`), hoisting a pattern into a compiled constant or renaming a constant / local variable does not.
 
 | source (models_cisco.py) | matcher in `lean/Ccp/Model/IosModels.lean` |
 |---|---|
@@ -43,7 +47,7 @@ or a list of `str` literals, distinct, in order of first appearance, as `(callee
 | `_RE_IP_ROUTE` (VERBOSE) | `routeParse`, `routeBody`, `routeTail` and the slot consumers `slotKw`, `slotDigits`, `slotKwWord`, `slotKwDigits`, `slotIntf`, `slotAddr`, `quadPrefix` |
 
 Because `ordinal_list` and `trunk_vlans_allowed` are modelled through C15's `Ccp.Intf.parse` and C14's
-`Ccp.Range.parse`, the scan lists of `CiscoIOSInterface.parse_single_interface / parse_intf_short / parse_intf_long`
+`Ccp.Range.parse`, the scan sets of `CiscoIOSInterface.parse_single_interface` (with `parse_intf_short` / `parse_intf_long`)
 and of `CiscoRange.__init__ / parse_integers` are conjuncts here as well: an edit of those breaks C19's obligation
 together with C15's / C14's, as it should.
 -/
@@ -53,152 +57,147 @@ namespace Ccp.RxC19
 source for which the model contains a hand-written scanner has the text that scanner was written for.  (The goals
 are named `regexes_as_modelled__<definition>`, so that a failing build names the constant that was edited.) -/
 theorem regexes_as_modelled :
-    Gen.rxIosIpRoute =
-      "^ip\\s+route(?:\\s+(?:vrf\\s+(?P<vrf>\\S+)))?\\s+(?P<prefix>\\d+\\.\\d+\\.\\d+\\.\\d+)\\s+(?P<netmask>\\d+\\.\\d+\\.\\d+\\.\\d+)(?:\\s+(?P<nh_intf>[^\\d]\\S+))?(?:\\s+(?P<nh_addr>\\d+\\.\\d+\\.\\d+\\.\\d+))?(?:\\s+(?P<dhcp>dhcp))?(?:\\s+(?P<global>global))?(?:\\s+(?P<ad>\\d+))?(?:\\s+(?P<mcast>multicast))?(?:\\s+name\\s+(?P<name>\\S+))?(?:\\s+(?P<permanent>permanent))?(?:\\s+track\\s+(?P<track>\\d+))?(?:\\s+tag\\s+(?P<tag>\\d+))?" ∧
-    Gen.rxIosIpRouteFlags =
-      "VERBOSE" ∧
-    Gen.rxIos_IOSCfgLine_is_intf =
-      [("==", "interface ", "[0:10]"),
-       ("!=", " ", "[10]")] ∧
-    Gen.rxIos_IOSCfgLine_is_in_portchannel =
+    Gen.rxIos_IOSIntfLine_is_object_for =
+      [("==", "interface", "[0]"),
+       ("str.split()", "", "")] ∧
+    Gen.rxIos_IOSIntfLine_is_intf =
+      [("==", " ", "[10]"),
+       ("==", "interface ", "[0:10]")] ∧
+    Gen.rxIos_IOSIntfLine_is_in_portchannel =
       [(".re_match_iter_typed", "^\\s*channel-group\\s+(\\d+)", "")] ∧
-    Gen.rxIos_IOSCfgLine_portchannel_number =
+    Gen.rxIos_IOSIntfLine_portchannel_number =
       [(".re_match_iter_typed", "^\\s*channel-group\\s+(\\d+)", "")] ∧
-    Gen.rxIos_IOSCfgLine_is_portchannel_intf =
-      [("lit in", "channel", "")] ∧
-    Gen.rxIos_BaseIOSIntfLine_name =
+    Gen.rxIos_IOSIntfLine_is_portchannel_intf =
+      [("lit in", "channel", ""),
+       ("str.join", " ", ""),
+       ("str.split()", "", "")] ∧
+    Gen.rxIos_IOSIntfLine_name =
       [("str.join", " ", ""),
        ("str.split()", "", "")] ∧
-    Gen.rxIos_BaseIOSIntfLine_port_type =
+    Gen.rxIos_IOSIntfLine_cisco_interface_object =
+      [("==", " ", "[10]"),
+       ("==", "interface ", "[0:10]"),
+       ("str.join", "", ""),
+       ("str.split()", "", "")] ∧
+    Gen.rxIos_IOSIntfLine_port_type =
       [(".re_match", "^interface\\s+([A-Za-z\\-]+)", "")] ∧
-    Gen.rxIos_BaseIOSIntfLine_interface_number =
-      [(".re_match", "^interface\\s+[A-Za-z\\-]+\\s*(\\d+.*?)(\\.\\d+)*(\\s\\S+)*\\s*$", "")] ∧
-    Gen.rxIos_BaseIOSIntfLine_subinterface_number =
-      [(".re_match", "^interface\\s+[A-Za-z\\-]+\\s*(\\d+.*?\\.?\\d?)(\\s\\S+)*\\s*$", "")] ∧
-    Gen.rxIos_BaseIOSIntfLine_description =
+    Gen.rxIos_IOSIntfLine_interface_number =
+      [(".re_match", "^interface\\s+[A-Za-z\\-]+\\s*(\\d+.*?)(\\.\\d+)*(\\s\\S+)*\\s*$", ""),
+       ("==", " ", "[10]"),
+       ("==", "interface ", "[0:10]")] ∧
+    Gen.rxIos_IOSIntfLine_subinterface_number =
+      [(".re_match", "^interface\\s+[A-Za-z\\-]+\\s*(\\d+.*?\\.?\\d?)(\\s\\S+)*\\s*$", ""),
+       ("==", " ", "[10]"),
+       ("==", "interface ", "[0:10]")] ∧
+    Gen.rxIos_IOSIntfLine_description =
       [(".re_match_iter_typed", "^\\s*description\\s+(\\S.*)$", "")] ∧
-    Gen.rxIos_BaseIOSIntfLine_ipv4_addr =
+    Gen.rxIos_IOSIntfLine_ipv4_addr =
       [(".re_match_iter_typed", "^\\s+ip\\s+address\\s+(\\d+\\.\\d+\\.\\d+\\.\\d+)\\s+\\d+\\.\\d+\\.\\d+\\.\\d+\\s*$", ""),
        (".re_match_iter_typed", "^\\s+ip\\s+address\\s+(dhcp)\\s*$", ""),
        (".re_match_iter_typed", "^\\s+ip\\s+address\\s+(negotiated)\\s*$", ""),
        ("==", "dhcp", ""),
        ("==", "negotiated", "")] ∧
-    Gen.rxIos_BaseIOSIntfLine_ipv4_netmask =
+    Gen.rxIos_IOSIntfLine_ipv4_netmask =
       [(".re_match_iter_typed", "^\\s+ip\\s+address\\s+\\d+\\.\\d+\\.\\d+\\.\\d+\\s+(\\d+\\.\\d+\\.\\d+\\.\\d+)\\s*$", "")] ∧
-    Gen.rxIos_BaseIOSIntfLine_ipv4_addr_object =
+    Gen.rxIos_IOSIntfLine_ipv4_addr_object =
       [(".re_match_iter_typed", "^\\s+ip\\s+address\\s+(?P<v4addr>\\S+)\\s+(?P<v4netmask>\\d+\\.\\d+\\.\\d+\\.\\d+)\\s*$", ""),
        ("==", "dhcp", "['v4addr']"),
        ("==", "negotiated", "['v4addr']")] ∧
-    Gen.rxIos_BaseIOSIntfLine_ip_secondary_addresses =
+    Gen.rxIos_IOSIntfLine_ip_secondary_addresses =
       [(".re_match_iter_typed", "^\\s*ip\\s+address\\s+(?P<secondary>\\S+\\s+\\S+)\\s+secondary\\s*$", "")] ∧
-    Gen.rxIos_BaseIOSIntfLine_ip_secondary_networks =
+    Gen.rxIos_IOSIntfLine_ip_secondary_networks =
       [(".re_match_iter_typed", "^\\s*ip\\s+address\\s+(?P<secondary>\\S+\\s+\\S+)\\s+secondary\\s*$", "")] ∧
-    Gen.rxIos_BaseIOSIntfLine_vrf =
+    Gen.rxIos_IOSIntfLine_vrf =
       [(".re_match_iter_typed", "^\\s*(ip\\s+)*vrf\\sforwarding\\s(\\S+)$", "")] ∧
-    Gen.rxIos_BaseIOSIntfLine_manual_mtu =
+    Gen.rxIos_IOSIntfLine_manual_mtu =
       [(".re_match_iter_typed", "^\\s*mtu\\s+(\\d+)$", "")] ∧
-    Gen.rxIos_BaseIOSIntfLine_manual_ip_mtu =
+    Gen.rxIos_IOSIntfLine_manual_ip_mtu =
       [(".re_match_iter_typed", "^\\s*ip\\s+mtu\\s+(\\d+)$", "")] ∧
-    Gen.rxIos_BaseIOSIntfLine_is_shutdown =
+    Gen.rxIos_IOSIntfLine_is_shutdown =
       [(".re_match_iter_typed", "^\\s*(shut\\S*)\\s*$", "")] ∧
-    Gen.rxIos_BaseIOSIntfLine_is_switchport =
+    Gen.rxIos_IOSIntfLine_is_switchport =
       [("==", "switchport", "[0]"),
        ("str.split()", "", "")] ∧
-    Gen.rxIos_BaseIOSIntfLine_has_manual_switch_access =
+    Gen.rxIos_IOSIntfLine_has_manual_switch_access =
       [("==", "['switchport','mode','access']", "[0:3]"),
        ("str.split()", "", "")] ∧
-    Gen.rxIos_BaseIOSIntfLine_has_manual_switch_trunk =
+    Gen.rxIos_IOSIntfLine_has_manual_switch_trunk =
       [("==", "['switchport','mode','trunk']", "[0:3]"),
        ("str.split()", "", "")] ∧
-    Gen.rxIos_BaseIOSIntfLine_access_vlan =
+    Gen.rxIos_IOSIntfLine_access_vlan =
       [("==", "['switchport','access','vlan']", "[0:3]"),
+       ("==", "switchport", "[0]"),
        ("str.split()", "", "")] ∧
-    Gen.rxIos_BaseIOSIntfLine_native_vlan =
-      [("str.split()", "", ""),
-       ("==", "['switchport','trunk','native','vlan']", "[0:4]")] ∧
-    Gen.rxIos_BaseIOSIntfLine_trunk_vlans_allowed =
-      [("==", "['switchport','trunk','allowed','vlan','add']", "[0:5]"),
-       ("str.split()", "", ""),
+    Gen.rxIos_IOSIntfLine_native_vlan =
+      [("==", "['switchport','trunk','native','vlan']", "[0:4]"),
+       ("==", "switchport", "[0]"),
+       ("str.split()", "", "")] ∧
+    Gen.rxIos_IOSIntfLine_trunk_vlans_allowed =
+      [(".re_match_typed", "^\\s+switchport\\s+trunk\\s+allowed\\s+vlan\\s+(all|none|\\d[\\d\\-\\,\\s]*)$", ""),
        (".re_match_typed", "^\\s+switchport\\s+trunk\\s+allowed\\s+vlan\\s+add\\s+(\\d[\\d\\-\\,\\s]*)$", ""),
-       ("!=", "_nomatch_", ""),
-       ("==", "['switchport','trunk','allowed','vlan','except']", "[0:5]"),
        (".re_match_typed", "^\\s+switchport\\s+trunk\\s+allowed\\s+vlan\\s+except\\s+(\\d[\\d\\-\\,\\s]*)$", ""),
-       ("==", "['switchport','trunk','allowed','vlan','remove']", "[0:5]"),
        (".re_match_typed", "^\\s+switchport\\s+trunk\\s+allowed\\s+vlan\\s+remove\\s+(\\d[\\d\\-\\,\\s]*)$", ""),
+       ("==", "['switchport','mode','access']", "[0:3]"),
+       ("==", "['switchport','trunk','allowed','vlan','add']", "[0:5]"),
+       ("==", "['switchport','trunk','allowed','vlan','except']", "[0:5]"),
+       ("==", "['switchport','trunk','allowed','vlan','remove']", "[0:5]"),
        ("==", "['switchport','trunk','allowed','vlan']", "[0:4]"),
-       (".re_match_typed", "^\\s+switchport\\s+trunk\\s+allowed\\s+vlan\\s+(all|none|\\d[\\d\\-\\,\\s]*)$", ""),
-       ("==", "none", ""),
-       ("==", "all", ""),
-       ("!=", "_nomatch_", "['allowed']"),
-       ("==", "allowed", ""),
-       ("re.search", "^\\d[\\d\\-\\,\\s]*", ""),
+       ("==", "_nomatch_", ""),
+       ("==", "_nomatch_", "['allowed']"),
        ("==", "add", ""),
+       ("==", "all", ""),
+       ("==", "allowed", ""),
        ("==", "except", ""),
-       ("==", "remove", "")] ∧
-    Gen.rxIos_BaseIOSIntfLine_cisco_interface_object =
-      [("str.join", "", ""),
+       ("==", "none", ""),
+       ("==", "remove", ""),
+       ("==", "switchport", "[0]"),
+       ("re.search", "^\\d[\\d\\-\\,\\s]*", ""),
        ("str.split()", "", "")] ∧
-    Gen.rxIos_IOSCfgLine_is_object_for_interface =
-      [("str.split()", "", ""),
-       ("==", "interface", "[0]")] ∧
     Gen.rxIos_IOSRouteLine_is_object_for =
       [("==", "ip route ", "[0:9]"),
        ("==", "ipv6 route ", "[0:11]")] ∧
     Gen.rxIos_IOSRouteLine_init =
       [("lit in", "ipv6", "[0:4]"),
-       ("_RE_IPV6_ROUTE.search", "<_RE_IPV6_ROUTE>", "VERBOSE"),
-       ("_RE_IP_ROUTE.search", "<_RE_IP_ROUTE>", "VERBOSE")] ∧
-    Gen.rxScanIntfParseSingle =
+       ("re.search", "^ip\\s+route(?:\\s+(?:vrf\\s+(?P<vrf>\\S+)))?\\s+(?P<prefix>\\d+\\.\\d+\\.\\d+\\.\\d+)\\s+(?P<netmask>\\d+\\.\\d+\\.\\d+\\.\\d+)(?:\\s+(?P<nh_intf>[^\\d]\\S+))?(?:\\s+(?P<nh_addr>\\d+\\.\\d+\\.\\d+\\.\\d+))?(?:\\s+(?P<dhcp>dhcp))?(?:\\s+(?P<global>global))?(?:\\s+(?P<ad>\\d+))?(?:\\s+(?P<mcast>multicast))?(?:\\s+name\\s+(?P<name>\\S+))?(?:\\s+(?P<permanent>permanent))?(?:\\s+track\\s+(?P<track>\\d+))?(?:\\s+tag\\s+(?P<tag>\\d+))?", "VERBOSE"),
+       ("re.search", "^ipv6\\s+route(?:\\s+vrf\\s+(?P<vrf>\\S+))?(?:\\s+(?P<prefix>^(?!:::\\S+?$)(?P<addr1>(?P<opt1_1>[0-9a-fA-F]{1,4}(?::[0-9a-fA-F]{1,4}){7})|(?P<opt1_2>(?:[0-9a-fA-F]{1,4}:){1}(?::[0-9a-fA-F]{1,4}){1,6})|(?P<opt1_3>(?:[0-9a-fA-F]{1,4}:){2}(?::[0-9a-fA-F]{1,4}){1,5})|(?P<opt1_4>(?:[0-9a-fA-F]{1,4}:){3}(?::[0-9a-fA-F]{1,4}){1,4})|(?P<opt1_5>(?:[0-9a-fA-F]{1,4}:){4}(?::[0-9a-fA-F]{1,4}){1,3})|(?P<opt1_6>(?:[0-9a-fA-F]{1,4}:){5}(?::[0-9a-fA-F]{1,4}){1,2})|(?P<opt1_7>(?:[0-9a-fA-F]{1,4}:){6}(?::[0-9a-fA-F]{1,4}){1,1})|(?P<opt1_8>:(?::[0-9a-fA-F]{1,4}){1,7})|(?P<opt1_9>(?:[0-9a-fA-F]{1,4}:){1,7}:)|(?P<opt1_10>(?:::))))\\/(?P<masklength>\\d+))(?:(?:\\s+(?P<nh_addr1>^(?!:::\\S+?$)(?P<addr2>(?P<opt2_1>[0-9a-fA-F]{1,4}(?::[0-9a-fA-F]{1,4}){7})|(?P<opt2_2>(?:[0-9a-fA-F]{1,4}:){1}(?::[0-9a-fA-F]{1,4}){1,6})|(?P<opt2_3>(?:[0-9a-fA-F]{1,4}:){2}(?::[0-9a-fA-F]{1,4}){1,5})|(?P<opt2_4>(?:[0-9a-fA-F]{1,4}:){3}(?::[0-9a-fA-F]{1,4}){1,4})|(?P<opt2_5>(?:[0-9a-fA-F]{1,4}:){4}(?::[0-9a-fA-F]{1,4}){1,3})|(?P<opt2_6>(?:[0-9a-fA-F]{1,4}:){5}(?::[0-9a-fA-F]{1,4}){1,2})|(?P<opt2_7>(?:[0-9a-fA-F]{1,4}:){6}(?::[0-9a-fA-F]{1,4}){1,1})|(?P<opt2_8>:(?::[0-9a-fA-F]{1,4}){1,7})|(?P<opt2_9>(?:[0-9a-fA-F]{1,4}:){1,7}:)|(?P<opt2_10>(?:::)))))|(?:\\s+(?P<nh_intf>\\S+(?:\\s+\\d\\S*?\\/\\S+)?)(?:\\s+(?P<nh_addr2>^(?!:::\\S+?$)(?P<addr3>(?P<opt3_1>[0-9a-fA-F]{1,4}(?::[0-9a-fA-F]{1,4}){7})|(?P<opt3_2>(?:[0-9a-fA-F]{1,4}:){1}(?::[0-9a-fA-F]{1,4}){1,6})|(?P<opt3_3>(?:[0-9a-fA-F]{1,4}:){2}(?::[0-9a-fA-F]{1,4}){1,5})|(?P<opt3_4>(?:[0-9a-fA-F]{1,4}:){3}(?::[0-9a-fA-F]{1,4}){1,4})|(?P<opt3_5>(?:[0-9a-fA-F]{1,4}:){4}(?::[0-9a-fA-F]{1,4}){1,3})|(?P<opt3_6>(?:[0-9a-fA-F]{1,4}:){5}(?::[0-9a-fA-F]{1,4}){1,2})|(?P<opt3_7>(?:[0-9a-fA-F]{1,4}:){6}(?::[0-9a-fA-F]{1,4}){1,1})|(?P<opt3_8>:(?::[0-9a-fA-F]{1,4}){1,7})|(?P<opt3_9>(?:[0-9a-fA-F]{1,4}:){1,7}:)|(?P<opt3_10>(?:::)))))?))(?:\\s+nexthop-vrf\\s+(?P<nexthop_vrf>\\S+))?(?:\\s+(?P<ad>\\d+))?(?:\\s+(?:(?P<ucast>unicast)|(?P<mcast>multicast)))?(?:\\s+tag\\s+(?P<tag>\\d+))?(?:\\s+track\\s+(?P<track>\\d+))?(?:\\s+name\\s+(?P<name>\\S+))?", "VERBOSE")] ∧
+    Gen.rxIntfParse =
       [("lit in", ",", ""),
+       ("re.search", "(?P<interface_class>\\s+[a-zA-Z\\-]+)$", ""),
+       ("re.search", ".*", ""),
+       ("re.search", "\\.(?P<subinterface>\\d+)", ""),
+       ("re.search", "\\:(?P<channel>\\d+)", ""),
        ("re.search", "^(?P<prefix>[a-zA-Z\\-\\s]*)(?P<port_subinterface_channel>[\\d\\:\\.^\\-^a-z^A-Z^\\s]+)(?P<interface_class>\\s+[a-zA-Z\\-]+){0,1}$", ""),
        ("re.search", "^(?P<prefix>[a-zA-Z\\-\\s]*)(?P<slot_card_port_subinterface_channel>[\\d\\:\\.\\/^\\-^a-z^A-Z^\\s]+)(?P<interface_class>\\s+[a-zA-Z\\-]+){0,1}$", ""),
-       ("re.search", ".*", "")] ∧
-    Gen.rxScanIntfParseShort =
-      [("re.search", "^\\D*(?P<port>\\d+)", ""),
-       ("re.search", "\\.(?P<subinterface>\\d+)", ""),
-       ("re.search", "\\:(?P<channel>\\d+)", ""),
-       ("re.search", "(?P<interface_class>\\s+[a-zA-Z\\-]+)$", "")] ∧
-    Gen.rxScanIntfParseLong =
-      [("re.search", "^(?P<slot>\\d+)(?P<sep1>[^\\:^\\.^\\-^\\s^\\d^a-z^A-Z])?(?P<card>\\d+)?(?P<sep2>[^\\:^\\.^\\-^\\s^\\d^a-z^A-Z])?(?P<port>\\d+)?", ""),
-       ("re.split", "\\s+", ""),
-       ("re.search", "\\.(?P<subinterface>\\d+)", ""),
-       ("re.search", "\\:(?P<channel>\\d+)", ""),
-       ("re.search", "(?P<interface_class>\\s+[a-zA-Z\\-]+)$", "")] ∧
-    Gen.rxScanRangeInit =
-      [("lit in", ",,", "")] ∧
-    Gen.rxScanRangeParseIntegers =
-      [("str.split", ",", ""),
+       ("re.search", "^(?P<slot>\\d+)(?P<sep1>[^\\:^\\.^\\-^\\s^\\d^a-z^A-Z])?(?P<card>\\d+)?(?P<sep2>[^\\:^\\.^\\-^\\s^\\d^a-z^A-Z])?(?P<port>\\d+)?", ""),
+       ("re.search", "^\\D*(?P<port>\\d+)", ""),
+       ("re.split", "\\s+", "")] ∧
+    Gen.rxRangeIntegers =
+      [("lit in", ",,", ""),
        ("lit in", "-", ""),
-       ("str.split", "-", ""),
-       ("str.join", "", "")] := by
-  refine ⟨?regexes_as_modelled__rxIosIpRoute, ?regexes_as_modelled__rxIosIpRouteFlags,
-    ?regexes_as_modelled__rxIos_IOSCfgLine_is_intf, ?regexes_as_modelled__rxIos_IOSCfgLine_is_in_portchannel,
-    ?regexes_as_modelled__rxIos_IOSCfgLine_portchannel_number,
-    ?regexes_as_modelled__rxIos_IOSCfgLine_is_portchannel_intf,
-    ?regexes_as_modelled__rxIos_BaseIOSIntfLine_name, ?regexes_as_modelled__rxIos_BaseIOSIntfLine_port_type,
-    ?regexes_as_modelled__rxIos_BaseIOSIntfLine_interface_number,
-    ?regexes_as_modelled__rxIos_BaseIOSIntfLine_subinterface_number,
-    ?regexes_as_modelled__rxIos_BaseIOSIntfLine_description,
-    ?regexes_as_modelled__rxIos_BaseIOSIntfLine_ipv4_addr,
-    ?regexes_as_modelled__rxIos_BaseIOSIntfLine_ipv4_netmask,
-    ?regexes_as_modelled__rxIos_BaseIOSIntfLine_ipv4_addr_object,
-    ?regexes_as_modelled__rxIos_BaseIOSIntfLine_ip_secondary_addresses,
-    ?regexes_as_modelled__rxIos_BaseIOSIntfLine_ip_secondary_networks,
-    ?regexes_as_modelled__rxIos_BaseIOSIntfLine_vrf, ?regexes_as_modelled__rxIos_BaseIOSIntfLine_manual_mtu,
-    ?regexes_as_modelled__rxIos_BaseIOSIntfLine_manual_ip_mtu,
-    ?regexes_as_modelled__rxIos_BaseIOSIntfLine_is_shutdown,
-    ?regexes_as_modelled__rxIos_BaseIOSIntfLine_is_switchport,
-    ?regexes_as_modelled__rxIos_BaseIOSIntfLine_has_manual_switch_access,
-    ?regexes_as_modelled__rxIos_BaseIOSIntfLine_has_manual_switch_trunk,
-    ?regexes_as_modelled__rxIos_BaseIOSIntfLine_access_vlan,
-    ?regexes_as_modelled__rxIos_BaseIOSIntfLine_native_vlan,
-    ?regexes_as_modelled__rxIos_BaseIOSIntfLine_trunk_vlans_allowed,
-    ?regexes_as_modelled__rxIos_BaseIOSIntfLine_cisco_interface_object,
-    ?regexes_as_modelled__rxIos_IOSCfgLine_is_object_for_interface,
+       ("str.join", "", ""),
+       ("str.split", ",", ""),
+       ("str.split", "-", "")] := by
+  refine ⟨?regexes_as_modelled__rxIos_IOSIntfLine_is_object_for,
+    ?regexes_as_modelled__rxIos_IOSIntfLine_is_intf, ?regexes_as_modelled__rxIos_IOSIntfLine_is_in_portchannel,
+    ?regexes_as_modelled__rxIos_IOSIntfLine_portchannel_number,
+    ?regexes_as_modelled__rxIos_IOSIntfLine_is_portchannel_intf, ?regexes_as_modelled__rxIos_IOSIntfLine_name,
+    ?regexes_as_modelled__rxIos_IOSIntfLine_cisco_interface_object,
+    ?regexes_as_modelled__rxIos_IOSIntfLine_port_type,
+    ?regexes_as_modelled__rxIos_IOSIntfLine_interface_number,
+    ?regexes_as_modelled__rxIos_IOSIntfLine_subinterface_number,
+    ?regexes_as_modelled__rxIos_IOSIntfLine_description, ?regexes_as_modelled__rxIos_IOSIntfLine_ipv4_addr,
+    ?regexes_as_modelled__rxIos_IOSIntfLine_ipv4_netmask,
+    ?regexes_as_modelled__rxIos_IOSIntfLine_ipv4_addr_object,
+    ?regexes_as_modelled__rxIos_IOSIntfLine_ip_secondary_addresses,
+    ?regexes_as_modelled__rxIos_IOSIntfLine_ip_secondary_networks, ?regexes_as_modelled__rxIos_IOSIntfLine_vrf,
+    ?regexes_as_modelled__rxIos_IOSIntfLine_manual_mtu, ?regexes_as_modelled__rxIos_IOSIntfLine_manual_ip_mtu,
+    ?regexes_as_modelled__rxIos_IOSIntfLine_is_shutdown, ?regexes_as_modelled__rxIos_IOSIntfLine_is_switchport,
+    ?regexes_as_modelled__rxIos_IOSIntfLine_has_manual_switch_access,
+    ?regexes_as_modelled__rxIos_IOSIntfLine_has_manual_switch_trunk,
+    ?regexes_as_modelled__rxIos_IOSIntfLine_access_vlan, ?regexes_as_modelled__rxIos_IOSIntfLine_native_vlan,
+    ?regexes_as_modelled__rxIos_IOSIntfLine_trunk_vlans_allowed,
     ?regexes_as_modelled__rxIos_IOSRouteLine_is_object_for, ?regexes_as_modelled__rxIos_IOSRouteLine_init,
-    ?regexes_as_modelled__rxScanIntfParseSingle, ?regexes_as_modelled__rxScanIntfParseShort,
-    ?regexes_as_modelled__rxScanIntfParseLong, ?regexes_as_modelled__rxScanRangeInit,
-    ?regexes_as_modelled__rxScanRangeParseIntegers⟩
+    ?regexes_as_modelled__rxIntfParse, ?regexes_as_modelled__rxRangeIntegers⟩
   all_goals rfl
 
 end Ccp.RxC19
